@@ -85,3 +85,37 @@ void h_top_badheader(void){
     __CPROVER_assert(r.base.kind == K_none, "C14 after a failed read of a Tasmanian stream the grid is empty, never half-built");
   __CPROVER_assert(0, "VACUITY-CANARY");
 }
+
+//@ text2
+/* line-oriented additions for the ASCII framing: a text line is a keyword token; reads that stop inside a line (>> and the family readers) leave the rest
+ * of the line, which the next getline returns as an empty line */
+enum { T_LINE = 10, T_PAIRS };
+bool g_midline;
+static token tok0(int kind){ token t; t.kind = kind; t.c[0] = 0; t.c[1] = 0; t.c[2] = 0; t.c[3] = 0; t.b = base_none(); t.v = vec_none(); return t; }
+void tape_write_line(int kw){ token t = tok0(T_LINE); t.b.id = kw; push(t); }
+int tape_read_word(void){ token t = pop(T_LINE); g_midline = true; return t.b.id; }
+int tape_getline(void){ if (g_midline) { g_midline = false; return KW_EMPTYLINE; } token t = pop(T_LINE); return t.b.id; }
+int tsg_kwcmp(int T, int kw){ return T == kw ? 0 : 1; }
+void tape_write_pairs(gvec a, gvec b, int n){ __CPROVER_assert(a.len == (size_t) n && b.len == (size_t) n, "C06 the domain transform written has one pair per dimension"); token t = tok0(T_PAIRS); t.v = a; t.b.id = b.id; push(t); }
+void tape_read_pairs(gvec *a, gvec *b, int n){ token t = pop(T_PAIRS); __CPROVER_assert(t.v.len == (size_t) n, "C06 the reader computes the number of pairs that was written"); *a = t.v; b->id = t.b.id; b->len = t.v.len; g_midline = true; }
+gvec tape_read_vec_a(size_t n){ gvec v = tape_read_vec(n); g_midline = true; return v; }
+gbase tape_read_base_a(int kind){ gbase b = tape_read_base(kind); g_midline = true; return b; }
+void tape_read_construction_a(gbase *b){ tape_read_construction(b); g_midline = true; }
+//@ harness h_top_roundtrip_ascii
+void h_top_roundtrip_ascii(void){
+  TT g, r; tt_symbolic(&g); tt_symbolic(&r);
+  tape_w = 0; tape_r = 0; tsg_exc = 0; g_midline = false;
+  top_writeAscii(&g);
+  /* the two header lines are consumed by the statements that were cut out of the reader */
+  __CPROVER_assert(tape_w >= 2 && tape[0].kind == T_LINE && tape[0].b.id == KW_HEADER && tape[1].kind == T_LINE && tape[1].b.id == KW_WARNING_do_not_edit_this_manually, "C06 writeAscii starts with the version line and the warning line");
+  tape_r = 2;
+  top_readAscii(&r);
+  __CPROVER_assert(tsg_exc == 0, "C06 a stream written by writeAscii is accepted by readAscii");
+  __CPROVER_assert(tape_r == tape_w, "C06 the ASCII reader consumes exactly what the writer produced");
+  __CPROVER_assert(r.base.kind == g.base.kind && (g.base.kind == K_none || (r.base.id == g.base.id && r.base.dims == g.base.dims)), "C06 ASCII: the grid type and the family object are restored");
+  __CPROVER_assert(vec_eq(r.domain_transform_a, g.domain_transform_a) && vec_eq(r.domain_transform_b, g.domain_transform_b), "C06 ASCII: the domain transform is restored");
+  __CPROVER_assert(vec_eq(r.conformal_asin_power, g.conformal_asin_power), "C06 ASCII: the conformal transform is restored");
+  __CPROVER_assert(vec_eq(r.llimits, g.llimits), "C06 ASCII: the level limits are restored");
+  __CPROVER_assert(r.using_dynamic_construction == g.using_dynamic_construction && r.base.construction_id == g.base.construction_id, "C06 ASCII: the dynamic-construction flag and data are restored");
+  __CPROVER_assert(0, "VACUITY-CANARY");
+}
